@@ -112,6 +112,33 @@ def worker(sh):
         for mod in (1, 2, 3, 4, 5, 6):
             if rng.random() < 0.6:
                 sc.dec(kid, 0, fl, 0, mod, 'ct-component:%d' % mod)
+    # documented adjustment that HIDES a slot it had fixed (free in the parent): the adjusted key must stop opening ciphertexts with
+    # that slot set, whatever id bits the hidden entry carries (a caller that copied the attribute and toggled the flag sends the
+    # old value), and the slot must then resist the filling attempts below like any other hidden slot
+    for kid, pat, op in list(keys):
+        free = free_slots(pat)
+        if not free or rng.random() < (0.3 if l > 3 else 0.0):
+            continue
+        i = rng.choice(free)
+        v = rng.choice(NZ)
+        fl = fixed_list(pat)
+        frm = sorted(fl + [(i, v)])
+        to = sorted(fl + [(i, None)])
+        k2 = sc.newkey()
+        sc.add('ndqualify %d 0 %d %d %s %d' % (k2, kid, max(0, l - len(frm)), alist(frm), sc.seed()), 'raw')
+        carried = rng.choice([v, v, v, 0, (v + R) % (1 << 256), rng.getrandbits(256)])
+        sc.add('adjust %d %d %s %s' % (k2, kid, alist(frm), alist(to, False, {i: carried})), 'raw')
+        tag = 'same-id' if carried == v else 'other-id'
+        sc.dec(k2, 0, frm, 0, 0, 'adjust-hide:slot-still-set/' + tag)
+        sc.dec(k2, 0, fl, 1, 0, 'positive/adjust-hide/' + tag)
+        keys.append((k2, wkd.qualify_pattern(pat, to, False), 'adjust'))
+        # and the reverse toggle: hidden in `from`, fixed in `to`
+        k3 = sc.newkey()
+        carried = rng.choice([v, v, 0, rng.getrandbits(256)])
+        sc.add('ndqualify %d 0 %d %d %s %d' % (k3, kid, max(0, l - len(to)), alist(to, False, {i: carried}), sc.seed()), 'raw')
+        sc.add('adjust %d %d %s %s' % (k3, kid, alist(to, False, {i: carried}), alist(frm)), 'raw')
+        sc.dec(k3, 0, frm, 1, 0, 'positive/adjust-unhide/' + ('same-id' if carried == v else 'other-id'))
+        sc.dec(k3, 0, fl, 0, 0, 'adjust-unhide:slot-dropped')
     # attempts to give a hidden slot a value
     for kid, pat, op in keys:
         hidden = [i for i, s in enumerate(pat) if s == 'H']
@@ -184,7 +211,7 @@ def run(ctx):
     ctx.extra['configs'] = cfgs
     ctx.assumptions = ['library pairing as instrument inside decrypt itself; message equality via Fq12::equal', 'coincidental equality of random GT elements has probability ~2^-255']
     need = ['decrypt|list:change/exhaustive-l3', 'decrypt|list:drop/exhaustive-l3', 'decrypt|list:add@free/exhaustive-l3', 'decrypt|list:add@hidden/exhaustive-l3', 'decrypt|positive/exact', 'decrypt|positive/equal-mod-r', 'decrypt|list:change', 'decrypt|list:drop', 'decrypt|list:add@free', 'decrypt|list:add@hidden',
-            'decrypt|hidden-fill:qualify', 'decrypt|hidden-fill:ndqualify', 'decrypt|hidden-fill:adjust', 'decrypt|ct-component:1', 'decrypt|ct-component:3', 'decrypt|ct-component:6']
+            'decrypt|hidden-fill:qualify', 'decrypt|hidden-fill:ndqualify', 'decrypt|hidden-fill:adjust', 'decrypt|adjust-hide:slot-still-set/same-id', 'decrypt|positive/adjust-unhide/same-id', 'decrypt|ct-component:1', 'decrypt|ct-component:3', 'decrypt|ct-component:6']
     for r in need:
         if not any(k.startswith(r) for k in ctx.classes):
             ctx.required_classes.add(r)
